@@ -117,6 +117,17 @@ def call_builtin(ex, st, name, args, kwargs, node, mod):
         if "_file_json" in st.env:
             return st.env["_file_json"]
         return Opaque("json", {})
+    if name == "jsonschema.validate":
+        # external: raises ValidationError exactly when the instance does not satisfy the schema.  The verdict is a ghost Bool of this activation
+        # (`_schema_accepts`), so that a contract can say "returns 0 exactly when jsonschema accepts"
+        used(ex, "jsonschema.validate(instance, schema): raises ValidationError exactly when the instance does not satisfy the schema (ghost verdict _schema_accepts)")
+        ok = z3.Bool(uid("schema_accepts"))
+        st.env["_schema_accepts"] = ok
+        cs = st.clone()
+        cs.pc.append(z3.Not(ok))
+        st.forks.append(("raise", cs, "ValidationError"))
+        st.pc.append(ok)
+        return None
     if name in ("sys.exit", "exit"):
         # process exit: a SystemExit carrying the status (A-CLICK: in standalone mode click turns it into the process exit status)
         st.env["_exit_status"] = args[0] if args else 0
